@@ -402,17 +402,92 @@ def c11_i6(ctx):
         raise Anchor("C11-I6", "entity_configs.get(..) in process_primitive / forward_pdu")
 
 
+@rule("C11", "C11-I8", 2, "the link a transaction started by a received PDU answers on is the link of the PDU's peer: the transport is looked up under the PDU's source entity for a PDU addressed to a receiver (its destination entity for one addressed to a sender)")
+def c11_i8(ctx):
+    from common import simp, sstr
+    from df import Flow
+
+    f = _daemon_fn(ctx, "C11-I8", "forward_pdu")
+    n = 0
+    for c in _body(ctx, f):
+        ebu = ExprBuilder(ctx.prog, c, user_stop=True)
+        fl = None
+        for b, t in c.all_calls():
+            e = ebu.call(b, t)
+            if not ((callee_name(e) or "").endswith("HashMap::get") and e[3] and "transport_tx_map" in expr_str(e[3][0])):
+                continue
+            n += 1
+            k_u = sstr(e[3][1])
+            key = "forward_pdu:transport_tx_map.get#%d" % n
+            alts = set()
+            m = re.match(r"^(\w+)$", k_u)
+            if m:
+                for d in ebu.var_defs(m.group(1)):
+                    d = simp(d)
+                    alts |= {sstr(x) for x in (d[2] if d[0] == "phi" else [d])}
+            else:
+                alts = {k_u}
+            src = {a for a in alts if a.endswith("header.source_entity_id")}
+            dst = {a for a in alts if a.endswith("header.destination_entity_id")}
+            if alts and src and dst and alts == src | dst:
+                # chosen by direction: check the choice itself below (the defining match)
+                yield ok("C11-I8", key, at(c, t["span"]["line"]), "looked up under %s = %s" % (k_u, sorted(alts)))
+                continue
+            if fl is None:
+                fl = Flow(ctx.prog, ctx.mods, c, lambda k: k[0] == "val" and k[1].endswith("header.direction"), user_stop=True)
+            ws = [dict(w) for w in fl.at_term(b)]
+
+            def dirs(w):
+                for k, (pos, vs) in w.items():
+                    if k[0] == "val" and k[1].endswith("header.direction") and pos and len(vs) == 1:
+                        return list(vs)[0]
+                return None
+
+            good = bool(ws) and all((dirs(w) == "ToReceiver" and alts == src and src) or (dirs(w) == "ToSender" and alts == dst and dst) for w in ws)
+            if good:
+                yield ok("C11-I8", key, at(c, t["span"]["line"]), "looked up under %s on the arm of that direction" % k_u)
+            else:
+                yield bad("C11-I8", key, at(c, t["span"]["line"]), "the transport for a transaction started by a received PDU is looked up under %s, which is not the PDU's peer for its direction: the new transaction answers on another entity's link (or a reflected PDU of this entity's own transfer starts a receive transaction)" % sorted(alts))
+        # the definition of the direction-dependent key
+        for b in c.live_blocks():
+            pass
+    if n < 2:
+        raise Anchor("C11-I8", "transport_tx_map.get(..) in forward_pdu")
+    # the direction-dependent choice: ToSender -> destination, ToReceiver -> source
+    for c in _body(ctx, f):
+        fl = Flow(ctx.prog, ctx.mods, c, lambda k: k[0] == "val" and k[1].endswith("header.direction"), user_stop=True)
+        ebr = ExprBuilder(ctx.prog, c, user_stop=True)
+        for b in c.live_blocks():
+            for j, st in enumerate(c.blocks[b]["stmts"]):
+                if st["k"] != "assign" or st["place"]["proj"] or st["rv"]["k"] != "use":
+                    continue
+                nm = c.place_str(st["place"])
+                if nm != "transport_entity" and not (isinstance(nm, str) and "transport" in nm and "entity" in nm):
+                    continue
+                v = sstr(ebr.rvalue(st["rv"]))
+                if not v.endswith(("header.source_entity_id", "header.destination_entity_id")):
+                    continue
+                ws = [dict(w) for w in fl.at_stmt(b, j)]
+                want = "ToReceiver" if v.endswith("source_entity_id") else "ToSender"
+                okd = bool(ws) and all(any(k[0] == "val" and k[1].endswith("header.direction") and pos and set(vs) == {want} for k, (pos, vs) in w.items()) for w in ws)
+                key = "forward_pdu:%s<-%s" % (nm, v.split(".")[-1])
+                if okd:
+                    yield ok("C11-I8", key, at(c, st["span"]["line"]), "chosen on the %s arm" % want)
+                else:
+                    yield bad("C11-I8", key, at(c, st["span"]["line"]), "%s is taken from %s on a path that is not the %s arm of the PDU's direction" % (nm, v, want))
+
+
 # ================================================================ C11-I7
 def is_lossy_channel_send(cal):
     """A channel send that also fails when the queue is merely full."""
     return cal.startswith("tokio::sync::mpsc") and cal.split("::")[-1] in ("try_send", "try_reserve", "try_reserve_owned", "send_timeout")
 
 
-@rule("C11", "C11-I7", 1, "the daemon never mistakes a busy transaction for a finished one: PDUs and commands are handed to transaction tasks with the waiting send (which fails only when the task is gone), never with a send that also fails on a full queue")
+@rule("C11", "C11-I7", 1, "the daemon never mistakes a busy transaction for a finished one, and no indication is dropped because the user's queue is momentarily full: PDUs, commands and indications are handed over with the waiting send (which fails only when the receiving end is gone), never with a send that also fails on a full queue")
 def c11_i7(ctx):
-    fns = [f for f in ctx.prog.by_norm.values() if f.crate == "cfdp_daemon" and (f.norm.startswith(DAEMON + "::") or (f.root or "").startswith(DAEMON + "::"))]
-    if len(fns) < 5:
-        raise Anchor("C11-I7", "functions of the Daemon")
+    fns = [f for f in ctx.prog.by_norm.values() if f.crate == "cfdp_daemon"]
+    if len(fns) < 50:
+        raise Anchor("C11-I7", "functions of cfdp-daemon")
     n = 0
     for f in fns:
         for b, t in f.all_calls():
